@@ -202,7 +202,7 @@ func runMerkle(t *testing.T, res *vh.Result) {
 					check("block.ComputeMerkleRoot(second call)", blk.ComputeMerkleRoot())
 				})
 			}
-			if v == 1 && (c.Len == 3 || c.Len == 33) {
+			if v == 1 && c.Len == 5 {
 				res.Sample(map[string]any{"part": "merkle", "len": c.Len, "term": c.Root, "root": util.Uint256(want).StringBE()})
 			}
 		}
@@ -362,15 +362,17 @@ func (ir *intRun) observeVM(b []byte, src string) {
 			ir.res.Count([]any{"vm", how, fmt.Sprintf("%x", operand)})
 		})
 	}
-	w := io.NewBufBinWriter()
-	emit.Bytes(w.BinWriter, b)
-	emit.Opcodes(w.BinWriter, opcode.CONVERT)
-	w.BinWriter.WriteB(byte(stackitem.IntegerT))
-	s1 := bytes.Clone(w.Bytes())
-	run("PUSHDATA;CONVERT Integer", s1, b)
-	emit.Opcodes(w.BinWriter, opcode.CONVERT)
-	w.BinWriter.WriteB(byte(stackitem.ByteArrayT))
-	run("PUSHDATA;CONVERT Integer;CONVERT ByteString", w.Bytes(), b)
+	conv := func(types ...stackitem.Type) []byte {
+		w := io.NewBufBinWriter()
+		emit.Bytes(w.BinWriter, b)
+		for _, ty := range types {
+			emit.Opcodes(w.BinWriter, opcode.CONVERT)
+			w.BinWriter.WriteB(byte(ty))
+		}
+		return w.Bytes()
+	}
+	run("PUSHDATA;CONVERT Integer", conv(stackitem.IntegerT), b)
+	run("PUSHDATA;CONVERT Integer;CONVERT ByteString", conv(stackitem.IntegerT, stackitem.ByteArrayT), b)
 	// the canonical push of the same value
 	x := bigint.FromBytes(bytes.Clone(b))
 	w2 := io.NewBufBinWriter()
@@ -428,7 +430,7 @@ func runIntCodec(t *testing.T, res *vh.Result) {
 				differs("bigint.ToBytes(FromBytes(non-minimal))", class+"-pad", c, map[string]any{"input": ints(b), "re": ints(re)})
 			}
 		}
-		if i%97 == 0 {
+		if i == 333 {
 			res.Sample(map[string]any{"part": "intcodec", "x": x.String(), "specified_encoding": c.Enc, "ToBytes": ints(out)})
 		}
 	}
